@@ -1,41 +1,10 @@
-(** C29 property theorems (part 3 of 3; the three files are compiled in parallel): statements only, each closed by [exact]; proofs are in C29/C29_Proofs.v.
+(** C29 property theorems (part 3 of 5; the files are compiled in parallel): statements only, each closed by [exact]; proofs are in C29/C29_Proofs.v.
     in_pointMassAt, in_isValid, in_shiftToMassCenter, in_shiftFromMassCenter, si_mulSV, si_calcMassMoment, sa_shift*
     are regenerated from MassProperties.h / SpatialAlgebra.h on every run (Gen/c29in_gen.v, c29si_gen.v, c29sa_gen.v);
     the other functions are the hand model C29/C29_Model.v, tied by the correspondence run of checks/C29.py. *)
 From Coq Require Import ZArith Reals List QArith.
 Require Import Num Vec c29in_gen c29si_gen c29sa_gen C29_Model C29_Proofs.
 Local Open Scope R_scope.
-
-Theorem C29_valid_implies_psd_refuted_Q :
-  in_isValid QOps ((1,2,2),(1,-1,1#2))%Q = true /\
-  (sym_quad QOps ((1,2,2),(1,-1,1#2)) (-2,1,-1) == -1)%Q /\ (sym_det QOps ((1,2,2),(1,-1,1#2)) == -5#4)%Q.
-Proof. exact (@valid_implies_psd_refuted_Q). Qed.
-Print Assumptions C29_valid_implies_psd_refuted_Q.
-
-Theorem C29_massprops_shift_agrees_with_spatial_inertia m p G S : m <> 0 ->
-  mp_calcShiftedMassProps ROps (m,p,G) S = si_shift ROps (m,p,G) S.
-Proof. exact (massprops_shift_agrees_with_spatial_inertia m p G S). Qed.
-Print Assumptions C29_massprops_shift_agrees_with_spatial_inertia.
-
-Theorem C29_spatial_inertia_transform_agrees_with_massprops m p G X : m <> 0 ->
-  mp_calcTransformedMassProps ROps (m,p,G) X = si_transform ROps (m,p,G) X.
-Proof. exact (spatial_inertia_transform_agrees_with_massprops m p G X). Qed.
-Print Assumptions C29_spatial_inertia_transform_agrees_with_massprops.
-
-Theorem C29_massless_transform_agrees_on_inertia p G X :
-  mp_calcInertia ROps (mp_calcTransformedMassProps ROps (0,p,G) X) = sym_scale ROps 0 (si_G (si_transform ROps (0,p,G) X)).
-Proof. exact (massless_transform_agrees_on_inertia p G X). Qed.
-Print Assumptions C29_massless_transform_agrees_on_inertia.
-
-Theorem C29_mp_reexpress_is_si_reexpress m p G Rm : mp_reexpress ROps (m,p,G) Rm = si_reexpress ROps (m,p,G) Rm.
-Proof. exact (mp_reexpress_is_si_reexpress m p G Rm). Qed.
-Print Assumptions C29_mp_reexpress_is_si_reexpress.
-
-Theorem C29_mp_calcShiftedInertia_is_shift m p G o :
-  mp_calcShiftedInertia ROps (m,p,G) o =
-  in_shiftFromMassCenter ROps (in_shiftToMassCenter ROps (mp_calcInertia ROps (m,p,G)) p m) (v3_sub ROps o p) m.
-Proof. exact (mp_calcShiftedInertia_is_shift m p G o). Qed.
-Print Assumptions C29_mp_calcShiftedInertia_is_shift.
 
 Theorem C29_ai_mul_ofSI m p G V : ai_mul ROps (ai_ofSI ROps (m,p,G)) V = si_mul ROps (m,p,G) V.
 Proof. exact (ai_mul_ofSI m p G V). Qed.
@@ -65,6 +34,58 @@ Theorem C29_ai_shift_zero P : ai_shift ROps P (0,0,0) = P.
 Proof. exact (ai_shift_zero P). Qed.
 Print Assumptions C29_ai_shift_zero.
 
+Theorem C29_cloud_inertia_translate pts s :
+  cloud_inertia ROps (cloud_translate s pts) =
+  sym_add ROps (sym_sub ROps (cloud_inertia ROps pts) (sym_cross_term (cloud_moment pts) s)) (in_pointMassAt ROps s (cloud_mass pts)).
+Proof. exact (cloud_inertia_translate pts s). Qed.
+Print Assumptions C29_cloud_inertia_translate.
+
+Theorem C29_cloud_mass_moment_translate pts s :
+  cloud_mass (cloud_translate s pts) = cloud_mass pts /\
+  cloud_moment (cloud_translate s pts) = v3_sub ROps (cloud_moment pts) (v3_scale ROps (cloud_mass pts) s).
+Proof. exact (cloud_mass_moment_translate pts s). Qed.
+Print Assumptions C29_cloud_mass_moment_translate.
+
+Theorem C29_cloud_shift_is_parallel_axis pts s com : v3_scale ROps (cloud_mass pts) com = cloud_moment pts ->
+  cloud_inertia ROps (cloud_translate s pts) =
+  in_shiftFromMassCenter ROps (in_shiftToMassCenter ROps (cloud_inertia ROps pts) com (cloud_mass pts)) (v3_sub ROps com s) (cloud_mass pts).
+Proof. exact (cloud_shift_is_parallel_axis pts s com). Qed.
+Print Assumptions C29_cloud_shift_is_parallel_axis.
+
+Theorem C29_cloud_si_shift pts m p G S :
+  m = cloud_mass pts -> v3_scale ROps m p = cloud_moment pts -> sym_scale ROps m G = cloud_inertia ROps pts ->
+  let M' := si_shift ROps (m,p,G) S in
+  si_m M' = cloud_mass (cloud_translate S pts) /\
+  v3_scale ROps (si_m M') (si_p M') = cloud_moment (cloud_translate S pts) /\
+  sym_scale ROps (si_m M') (si_G M') = cloud_inertia ROps (cloud_translate S pts).
+Proof. exact (cloud_si_shift pts m p G S). Qed.
+Print Assumptions C29_cloud_si_shift.
+
+Theorem C29_si_quadratic_form_of_cloud pts m p G V :
+  m = cloud_mass pts -> v3_scale ROps m p = cloud_moment pts -> sym_scale ROps m G = cloud_inertia ROps pts ->
+  sv_dot ROps V (si_mul ROps (m,p,G) V) = cloud_ke2 pts V.
+Proof. exact (si_quadratic_form_of_cloud pts m p G V). Qed.
+Print Assumptions C29_si_quadratic_form_of_cloud.
+
+Theorem C29_cloud_spatial_inertia_psd pts m p G V : masses_nonneg pts ->
+  m = cloud_mass pts -> v3_scale ROps m p = cloud_moment pts -> sym_scale ROps m G = cloud_inertia ROps pts ->
+  0 <= sv_dot ROps V (si_mul ROps (m,p,G) V).
+Proof. exact (cloud_spatial_inertia_psd pts m p G V). Qed.
+Print Assumptions C29_cloud_spatial_inertia_psd.
+
+Theorem C29_findRelativeVelocityInF_composes p VA VB :
+  VB = sv_add ROps (sa_shiftVelocityBy ROps VA p) (sa_findRelativeVelocityInF ROps p VA VB).
+Proof. exact (findRelativeVelocityInF_composes p VA VB). Qed.
+Print Assumptions C29_findRelativeVelocityInF_composes.
+
+Theorem C29_findRelativeAccelerationInF_composes p VA AA VB AB :
+  let Vrel := sa_findRelativeVelocityInF ROps p VA VB in
+  let Arel := sa_findRelativeAccelerationInF ROps p VA AA VB AB in
+  AB = sv_add ROps (sa_shiftAccelerationBy ROps AA (fst VA) p)
+         (sv_add ROps Arel (v3_cross ROps (fst VA) (fst Vrel), v3_scale ROps 2 (v3_cross ROps (fst VA) (snd Vrel)))).
+Proof. exact (findRelativeAccelerationInF_composes p VA AA VB AB). Qed.
+Print Assumptions C29_findRelativeAccelerationInF_composes.
+
 Theorem C29_rotation_example : rotation ((2/3,-1/3,2/3),(2/3,2/3,-1/3),(-1/3,2/3,2/3)).
 Proof. exact (@rotation_example). Qed.
 Print Assumptions C29_rotation_example.
@@ -82,4 +103,10 @@ Print Assumptions C29_valid_example.
 Theorem C29_invalid_example : in_isValid ROps ((1,1,3),(0,0,0)) = false.
 Proof. exact (@invalid_example). Qed.
 Print Assumptions C29_invalid_example.
+
+Theorem C29_cloud_translate_example :
+  cloud_mass (((1,2,0),3) :: ((0,-1,1),2) :: nil) = 5 /\ cloud_moment (((1,2,0),3) :: ((0,-1,1),2) :: nil) = (3,4,2) /\
+  v3_scale ROps 5 (3/5,4/5,2/5) = cloud_moment (((1,2,0),3) :: ((0,-1,1),2) :: nil).
+Proof. exact (@cloud_translate_example). Qed.
+Print Assumptions C29_cloud_translate_example.
 
